@@ -257,6 +257,7 @@ def oracleC17 (op : List String) (o : Obs) : Verdict :=
     else .fail "poly-add" "sum differs"
   | ["rs", _, _, _, calls] =>
     if o.cls ≠ "ok" then .fail "rs-encode" o.cls else
+    if o.get "guard" = "0" then .fail "rs-caller-memory" "Encode wrote to the caller's memory (inside or beyond the data slice)" else
     let cs := (calls.splitOn ";").map (fun c => match c.splitOn ":" with
       | [k, d] => (k.toNat?.getD 0, natList d)
       | _ => (0, []))
